@@ -280,6 +280,22 @@ func (w *asWorld) checkSubmission(c *asCert) {
 				if _, err := cl.SendCertificate(context.Background(), &back); err != nil || cap.got == nil || !proto.Equal(cap.got, q) {
 					w.fail(fmt.Sprintf("[C10] certificate %d: the stored copy does not reproduce the submitted message", c.id))
 				}
+				// an imported exit that cannot be put on the wire (claim data lost, e.g. restored from `"claim_data":null`): the
+				// client must refuse the whole certificate — what reaches the Agglayer may never be less than what was signed
+				if n := len(back.ImportedBridgeExits); n > 0 {
+					k := int(c.id) % n
+					saved := back.ImportedBridgeExits[k].ClaimData
+					back.ImportedBridgeExits[k].ClaimData = nil
+					cap2 := &captureSub{}
+					cl2 := agglayergrpc.VerifNewAgglayerGRPCClient(&aggkitgrpc.ClientConfig{RequestTimeout: cfgtypes.NewDuration(time.Minute)}, nil, nil, cap2)
+					_, err := cl2.SendCertificate(context.Background(), &back)
+					back.ImportedBridgeExits[k].ClaimData = saved
+					r.Evals++
+					if cap2.got != nil && len(cap2.got.ImportedBridgeExits) != n {
+						w.fail(fmt.Sprintf("[C10] certificate %d with an unconvertible imported exit (#%d of %d) was submitted with %d imported exits (err=%v): the message is not what the signature covers",
+							c.id, k, n, len(cap2.got.ImportedBridgeExits), err))
+					}
+				}
 			}
 		}
 	}
